@@ -5,14 +5,15 @@
 # meta.json as catching it.  Prints one line per change; exit 1 if a change that
 # was caught before is now missed.  Budget per check: MUT_BUDGET seconds (default 30).
 set -u
-cd /verif
+V=$(cd "$(dirname "$0")/.." && pwd)
+cd "$V"
 IDS=("$@")
 if [ ${#IDS[@]} -eq 0 ]; then IDS=($(ls seeded | grep -v '^_')); fi
 missed=0
 for id in "${IDS[@]}"; do
   checks=$(python3 -c "
 import json,sys
-m=json.load(open('/verif/seeded/$id/meta.json'))
+m=json.load(open('$V/seeded/$id/meta.json'))
 c=[x['check'] for x in m['checks'] if x['exit']==1]
 print(' '.join(c[:1]))")
   [ -z "$checks" ] && { echo "$id: no catching check recorded"; continue; }
